@@ -80,7 +80,29 @@ def evaluate(case):
     return fails, tags, ser
 
 
+PURE_URLS = ["http://a.com/x", "http://a.co.uk:8080/x/?q=1#f", "http://u:p@b.a.co.uk/", "http://co.uk/a", "http://[::1]:80/x", "http://a.com./p", "a.com/x"]
+
+
+def pure_labels():
+    out = []
+    for u in PURE_URLS:
+        for sa in (False, True):
+            out.append({"mod": "ural.lru", "fn": "url_to_lru", "args": [u], "kw": {"suffix_aware": sa}})
+            out.append({"mod": "ural.lru", "fn": "lru_stems", "args": [u], "kw": {"suffix_aware": sa}})
+    out += [{"mod": "ural.lru", "fn": "lru_to_url", "args": [s]} for s in ("s:http|h:com|h:a|p:x|", "s:http|t:8080|h:co.uk|h:a|p:x|p:|q:q=1|f:f|", "s:http|h:uk|h:co|p:a|")]
+    return out
+
+
+def pure_thunk(label):
+    mod = importlib.import_module(label["mod"])
+    f = getattr(mod, label["fn"])
+    args, kw = label.get("args", []), label.get("kw", {})
+    return lambda: core.call(f, *args, **kw)
+
+
 def judge(w):
+    if "history" in w:
+        return core.judge_history(PROP + ".pure", w, pure_thunk)
     return evaluate(w["case"])[0]
 
 
@@ -100,6 +122,8 @@ ALL = grid.Grid("all", urlgram.text_slots(1, None, exclude="|") + struct(), free
 
 
 def simplify(w):
+    if "history" in w:
+        return []
     return ALL.wsimplify(w)
 
 
@@ -121,6 +145,8 @@ def run(chk):
         failures, tags = grid.run(chk, g, d, evaluate, shrink=(ALL.wit, simplify, fails_fn))
         for t, n in tags.items():
             tags_total[t] = tags_total.get(t, 0) + n
+    chk.rule.append("H2: every ordered pair of %d lru-function calls from a reset module state." % len(pure_labels()))
+    core.explore_pairs(chk, PROP + ".pure", [(l, pure_thunk(l)) for l in pure_labels()])
     n = chk.cov["states"]
     chk.add("transitions", n * 9)
     chk.add("evaluations", n)
